@@ -649,6 +649,14 @@ func VerifyLinkSignatureThesholds(layout Layout,
 		// Store all good links for a step
 		stepsMetadataVerified[step.Name] = linksPerStepVerified
 
+		// A step without any verified link can not be processed further,
+		// whatever its threshold says (zero and negative thresholds are
+		// not rejected by the layout validation)
+		if len(linksPerStepVerified) < 1 && step.Threshold < 1 {
+			return nil, fmt.Errorf("step '%s' has no link metadata with a valid signature from an"+
+				" authorized signer: %v", step.Name, stepErr)
+		}
+
 		if len(linksPerStepVerified) < step.Threshold {
 			linksPerStep := stepsMetadata[step.Name]
 			return nil, fmt.Errorf("step '%s' requires '%d' link metadata file(s)."+
